@@ -49,6 +49,7 @@ def lemma_mod_frame(ctx):
       F4  ... inside a loop over `mod_atoms[aname].items()` that supplies key and value (only what the modification's `replace` says);
       F5  target_residue is the residue found by the residue id of the target (through _node_from_resid, proved above), and mod_atoms
           is filled from the atoms of the desired modification only;
+      F7  the table of named atoms is created afresh for every (target, modification) pair;
       F6  the only other calls that can change the molecule are molecule.add_interaction (vermouth: appends an interaction, no atom
           changes; assumed effect contract) -- no deletion, update, pop, setdefault, clear or node/edge removal anywhere in the function."""
     import ast
@@ -133,6 +134,12 @@ def lemma_mod_frame(ctx):
         return key is not None and any(isinstance(a, ast.For) and ast.unparse(a.target) == key.group(1)
                                        and any(ast.unparse(a.iter) == f"molecule.force_field.modifications[{mn}].atoms" for mn in mod_names) for a in ancestors(n))
     f5c = bool(fills) and all(fill_ok(n) for n in fills)
+    # F7: the table of named atoms is made afresh for every (target, modification) pair
+    outer = [n for n in fn.body if isinstance(n, ast.For) and isinstance(n.target, ast.Tuple)]
+    creations = [n for n in ast.walk(fn) if isinstance(n, ast.Assign) and len(n.targets) == 1 and isinstance(n.targets[0], ast.Name) and n.targets[0].id == table
+                 and isinstance(n.value, ast.Dict) and not n.value.keys]
+    f7 = len(outer) == 1 and len(creations) == 1 and any(st is creations[0] for st in outer[0].body) and all(
+        creations[0].lineno < n.lineno for n in fills)
     # F6
     bad_methods = {"update", "pop", "popitem", "setdefault", "clear", "remove_node", "remove_nodes_from", "remove_edge", "remove_edges_from", "add_node", "add_nodes_from",
                    "add_edge", "add_edges_from", "merge_molecule", "remove_interaction", "__setitem__", "__delitem__"}
@@ -146,6 +153,7 @@ def lemma_mod_frame(ctx):
            ("apply_mod F3: the store is guarded by `aname in mod_atoms` with aname = molecule.nodes[n]['atomname'] read in the same iteration", [], z3.BoolVal(bool(good) and all(g[3] for g in good))),
            ("apply_mod F4: key and value come from mod_atoms[aname].items() (what the modification's replace entry says)", [], z3.BoolVal(bool(good) and all(g[4] for g in good))),
            ("apply_mod F5: target_residue is the residue with the target's residue id; mod_atoms is filled from the atoms of the desired modification only", [], z3.BoolVal(f5a and f5b and f5c)),
+           ("apply_mod F7: the table of named atoms is created afresh in every iteration over the (target, modification) pairs, before it is filled (nothing carries over from an earlier modification)", [], z3.BoolVal(f7)),
            ("apply_mod F6: no deletion and no mutating call other than molecule.add_interaction on objects reachable from the arguments"
             + (f"  [{[c.func.attr for c in mutators] + others}]" if mutators or others else ""), [], z3.BoolVal(not mutators and not dels and not others))]
     return out
